@@ -393,8 +393,8 @@ def random_scns(nscn, seed, maxops, counts):
 
 
 # -------------------------------------------------------------------------- replay ----
-def run_replay(c, behs, label, seed=None, chunk=20, timeout=1500):
-    payload = dict(property=c.prop, seed=c.seed if seed is None else seed, config=dict(MemSize=4096, Chunk=chunk), behaviours=behs)
+def run_replay(c, behs, label, seed=None, chunk=20, timeout=1500, **cfg):
+    payload = dict(property=c.prop, seed=c.seed if seed is None else seed, config=dict(MemSize=4096, Chunk=chunk, **cfg), behaviours=behs)
     res = vlib.run_harness("rescale", payload, timeout=timeout)
     c.add_harness(res, payload, "%s (%d behaviours)" % (label, len(behs)))
     return res, payload
@@ -480,6 +480,13 @@ def run(c):
     if behs:
         res, payload = run_replay(c, behs, "scenario scripts: witnesses, grid count x M x N x acks x residence, big counts, random", chunk=25, timeout=3000)
         selftest(c, behs[1])
+        # the same scenarios with surviving workers: the old generation's Operator objects (ids, directories) are deployed
+        # again, at another position of the operator list and whatever the new count is; only the missing ones are new
+        rnd = random.Random(c.seed * 31 + 5)
+        sub = behs if len(behs) <= (150 if q else 1500) else rnd.sample(behs, 150 if q else 1500)
+        res2, _ = run_replay(c, sub, "the same scenarios, surviving Operator objects redeployed at another position / count", chunk=25, timeout=3000, Reuse=True)
+        if not res2.get("violations") and not res2.get("counters", {}).get("operators_redeployed_at_another_position_or_count"):
+            c.errors.append("the surviving-operator arm never redeployed an Operator object (vacuous)")
         c.sample(dict(kind="Rescale scenario elaborated by TLC and replayed on real operators (jobs.Assembly.Deploy)",
                       steps=[{k: v for k, v in s.items() if k not in ("lay", "pred")} for s in behs[3][:30]]))
     # ---- 4. random walks of the spec itself
@@ -495,7 +502,8 @@ def run(c):
         "every DB entry is THE state entry of a subject key (one namespace, one entry) or a timer; values are write stamps",
         "flush = the padded write that fills the memtable (verif tunable dkv.memTableSize), awaited to quiescence; compaction "
         "regimes through the tunable dkv.maxSizeAmpPct (-1: everything into the base level; max: L0+L1 -> L1), one table per compaction",
-        "new operators get new ids (new DKV directories); old operators are halted, not garbage collected, while the behaviour runs",
+        "new operators get new ids (new DKV directories) and old operators are halted, not garbage collected, while the behaviour runs; "
+        "a second pass over the scenarios redeploys the old generation's Operator objects (surviving workers) at rotated positions",
         "events reach the operator the real KeySpace routes them to (routing itself is C05)",
     ]
 
